@@ -3,7 +3,7 @@ import math
 import numpy as np
 import impl
 from gen import grid, data, special, unc, unc_relative
-from .common import arr, tolist
+from .common import arr, tolist, history_differs, transform_primers
 
 LEAN = "PystogVerif.Props.C02"
 ENTRIES = ["Transformer.fourier_transform", "Transformer.G_to_F", "Transformer.F_to_G"]
@@ -83,6 +83,11 @@ def evaluate(case):
     scl = abs(a) * sc + abs(b) * (float(np.sum(np.abs(w) * np.abs(z))) + 1e-300)
     if np.abs(np.asarray(vl) - (a * v + b * np.asarray(vz))).max() > 1e-9 * scl:
         fails.append("fourier_transform: not linear in the data")
+    # the value is a function of the arguments only: a Transformer that has served look-alike calls (same grid with every option
+    # on, a grid with the same length and end points, other data) returns the same bits as a fresh one
+    if len(x) <= 200 and history_differs("Transformer", "fourier_transform", (x, y, xo), dict(dy_in=dy),
+                                         transform_primers("fourier_transform", x, y, xo, "dy_in", dy)):
+        fails.append("fourier_transform: the result depends on calls the same Transformer served before (cached grid / weights / options)")
     # the two named cores: bare kernel in r->Q, 2/pi in Q->r
     _, g2f, _ = tr.G_to_F(x, y, xo)
     if not np.array_equal(np.asarray(g2f), v):
